@@ -4,19 +4,45 @@ package dastard
 
 // C17: a running acquisition is free of data races. Union world under the race detector:
 // a source (scripted, Triangle or SimPulse; Abaco and Lancero with their simulated devices
-// when those worlds are present), triggers firing, group coupling, LJH/OFF writing with
+// live in zz_verif_c17b*.go), triggers firing, group coupling, LJH/OFF writing with
 // flush ticks, the real status updater, the heartbeat loop, raw-data block archive requests
-// that complete during the run and one client issuing the control-request mix.
+// that complete during the run and clients issuing the control-request mix.
+//
+// Clients. A client is one task that has one request outstanding at a time, like one connection
+// of the RPC server (RunRPCServer serves the requests of a connection one after the other and the
+// connections concurrently). Half of the runs have one client (the property's own workload), the
+// others two or three. Besides the requests that are executed inside the data-handling loop
+// (everything that goes through runLaterIfActive) the clients issue the requests that are served
+// on the RPC thread itself, next to the running loop: ReadComment, SendAllStatus,
+// ConfigurePulseLengths (its checks), ConfigureMixFraction, ConfigureTriangleSource /
+// ConfigureSimPulseSource, MapServer.Load / Unload, the early refusals of WriteComment /
+// StoreRawDataBlock / SetExperimentStateLabel, Multiply, Stop and Start.
+//
+// Runs that end by themselves. The scripted source's hardware task can fail: it delivers an error
+// block, or its data channel is closed, at a moment chosen by the tape (on its own after a drawn
+// number of blocks, or when client 0 - acting as the experimenter who pulls the cable, not as a
+// client of dastard - tells it to). CoreLoop then ends on its own initiative and its deferred
+// clean-up stops the file writing, while no request is in flight: nothing orders the client's
+// next request after the end of the run. The failure arrives while files are written, while
+// writing is paused and while nothing is written; the requests that follow it come from the
+// RPC-thread menu first. ErroringSource (the repository's own source that fails at once) is
+// started now and then between two runs.
 //
 // The harness never looks at dastard's memory from its own tasks in this world: everything it
-// learns arrives over channels. (A report in which harness code itself touches shared memory is
-// classified "harness-made" by the runtime and never counted.)
+// learns arrives over channels and in the replies to its requests. (A report in which harness code
+// itself touches shared memory is classified "harness-made" by the runtime and never counted.)
+// The one seam is the start of the scripted source, which SourceControl.Start cannot name: the
+// harness repeats the body of SourceControl.Start for it (client 0 only).
 
 import (
 	"encoding/base64"
 	"fmt"
+	"os"
 	"path/filepath"
+	"sort"
+	"strconv"
 	"strings"
+	"sync/atomic"
 	"time"
 
 	"gonum.org/v1/gonum/mat"
@@ -27,8 +53,8 @@ import (
 func init() {
 	simrt.Register(&simrt.Check{Name: "C17", Property: "C17", Body: c17Body, Classify: classify,
 		Judge: c17Judge, MaxSteps: 400000,
-		Real: []string{"SourceControl RPC methods", "Start / CoreLoop / ProcessSegments fan-out and fan-in", "per-channel processors, triggers, TriggerBroker", "DataPublisher + LJH2.2/LJH3/OFF writers + asyncbufio writer goroutines", "WriteControl and the three side files", "raw-data block archive (StoreRawDataBlock + its writer goroutine)", "RunClientUpdater loop incl. saveState", "TriangleSource / SimPulseSource producers"},
-		Stub: []string{"scripted source (harness blocks)", "record and summary publishers (channel sinks)", "ZMQ status socket (messages captured at SendMessage, Bind skipped)", "heartbeat goroutine: body copied from RunRPCServer where it is an inline closure", "net/rpc transport (methods called directly by one client task)"}})
+		Real: []string{"SourceControl RPC methods (requests executed in the data-handling loop and requests served on the RPC thread)", "MapServer.Load / Unload", "Start / CoreLoop incl. its deferred clean-up when the source ends by itself / ProcessSegments fan-out and fan-in", "per-channel processors, triggers, TriggerBroker", "DataPublisher + LJH2.2/LJH3/OFF writers + asyncbufio writer goroutines", "WriteControl and the three side files", "raw-data block archive (StoreRawDataBlock + its writer goroutine)", "RunClientUpdater loop incl. saveState", "TriangleSource / SimPulseSource producers", "ErroringSource"},
+		Stub: []string{"scripted source (harness blocks; its hardware task can fail with an error block or a closed data channel)", "start of the scripted source (body of SourceControl.Start repeated by the harness, client 0 only)", "record and summary publishers (channel sinks)", "ZMQ status socket (messages captured at SendMessage, Bind skipped)", "heartbeat goroutine: body copied from RunRPCServer where it is an inline closure", "net/rpc transport (methods called directly; one task per client connection, one request at a time each)"}})
 }
 
 // c17Judge: this check is about races only. A panic or wedge in this world is another
@@ -59,6 +85,593 @@ func c17Sinks() {
 	}()
 }
 
+// c17World is what the client tasks of one run share. They share no variable that a request's
+// outcome is written to: each client keeps its own beliefs (c17Client), so that the harness adds
+// no ordering between the RPC threads it plays.
+type c17World struct {
+	env      *simrt.Env
+	sc       *SourceControl
+	kind     int // 0 scripted, 1 Triangle, 2 SimPulse
+	nchan    int
+	nsamp    int
+	npre     int
+	rate     float64
+	srcName  string
+	nclients int
+	basePath string
+	mapPath  string
+	all      []int
+	triCfg   TriangleSourceConfig
+	simCfg   SimPulseSourceConfig
+
+	// The scripted source's hardware. feedStop is touched by client 0 and the body only.
+	feedStop chan struct{}
+	// failNow: client 0 -> hardware task, "fail at your next block" (1 error block, 2 closed channel).
+	// One writer; the hardware task only ever reads it, so nothing flows back to the client.
+	failNow atomic.Int32
+	// counted by the hardware tasks (one alive at a time), read by the body when the run is over
+	nAutoEnds   atomic.Int32
+	nAskedEnds  atomic.Int32
+	nErrBlocks  atomic.Int32
+	nClosedChan atomic.Int32
+}
+
+// c17LockRequests / c17UnlockRequests take and release the lock that the RPC methods of the tree under test hold while they serve a
+// request, if that tree has one (zz_verif_c17lock.go, overlaid when the repository defines
+// SourceControl.requestLock); otherwise nothing. startScripted takes it like SourceControl.Start would.
+var c17LockRequests, c17UnlockRequests = func(sc *SourceControl) {}, func(sc *SourceControl) {}
+
+// startScripted does for the scripted source what SourceControl.Start does for the built-in ones
+// (the switch there only knows the built-in names): same checks, same order. In runs with the
+// scripted source only client 0 sends Stop and Start, so this body never runs next to another
+// client's Stop or Start (the other clients' other requests do run next to it, as they run next to
+// a real Start).
+func (w *c17World) startScripted() error {
+	sc := w.sc
+	c17LockRequests(sc)
+	defer c17UnlockRequests(sc)
+	if sc.isSourceActive {
+		return fmt.Errorf("already have active source, do not start")
+	}
+	w.stopScriptedHardware() // the hardware task of the previous run, if it still waits with a block
+	nchan, nsamp, rate := w.nchan, w.nsamp, w.rate
+	ss := NewScriptedSource(nchan, rate)
+	ss.heartbeats = sc.heartbeats
+	sc.ActiveSource = DataSource(ss)
+	sc.status.SourceName = "Scripted"
+	sc.status.Running = true
+	if err := Start(sc.ActiveSource, sc.queuedRequests, sc.status.Npresamp, sc.status.Nsamples); err != nil {
+		sc.status.Running = false
+		sc.isSourceActive = false
+		return err
+	}
+	sc.isSourceActive = true
+	sc.status.SamplePeriod = sc.ActiveSource.SamplePeriod()
+	sc.status.Nchannels = sc.ActiveSource.Nchan()
+	sc.status.ChanGroups = sc.ActiveSource.ChanGroups()
+	sc.broadcastStatus()
+	sc.broadcastTriggerState()
+	sc.broadcastGroupTriggerState()
+	sc.broadcastChannelNames()
+	// hardware task: paced blocks with pulses, external triggers and drops; it can fail
+	feed := ss.feed
+	stop := make(chan struct{})
+	w.feedStop = stop
+	period := time.Duration(roundint(1e9 / rate))
+	failAfter := 0 // blocks; 0 = this hardware does not fail on its own
+	if simrt.Draw(4) == 0 {
+		failAfter = 10 + simrt.Draw(600)
+	}
+	w.failNow.Store(0)
+	go func() {
+		sent, nblocks := 0, 0
+		t0 := time.Now()
+		ext := int64(10)
+		for {
+			mode := int(w.failNow.Load())
+			if mode != 0 {
+				w.nAskedEnds.Add(1)
+			} else if failAfter > 0 && nblocks >= failAfter {
+				mode = 1 + simrt.Draw(2)
+				w.nAutoEnds.Add(1)
+			}
+			if mode != 0 {
+				// the end of this run is the hardware's doing: an error block, or the data channel closes
+				var b *dataBlock
+				if mode == 1 {
+					b = &dataBlock{err: fmt.Errorf("simulated hardware failure")}
+					w.nErrBlocks.Add(1)
+				} else {
+					w.nClosedChan.Add(1)
+				}
+				select {
+				case feed <- b:
+				case <-stop:
+				}
+				return
+			}
+			n := nsamp/2 + simrt.Draw(3*nsamp)
+			b := new(dataBlock)
+			b.segments = make([]DataSegment, nchan)
+			for c := 0; c < nchan; c++ {
+				data := make([]RawType, n)
+				for i := range data {
+					v := 1000 + (sent+i)%7
+					if ph := (sent + i + 13*c) % (3 * nsamp); ph < 6 {
+						v += 3000 - 400*ph
+					}
+					data[i] = RawType(v)
+				}
+				b.segments[c] = DataSegment{rawData: data, framesPerSample: 1, framePeriod: period,
+					firstFrameIndex: FrameIndex(sent), firstTime: t0.Add(time.Duration(sent) * period)}
+				if simrt.Draw(6) == 0 {
+					b.segments[c].droppedFrames = 1 + simrt.Draw(3)
+				}
+			}
+			if simrt.Draw(3) == 0 {
+				for k := 0; k < 1+simrt.Draw(3); k++ {
+					ext += 1 + int64(simrt.Draw(40))
+					b.externalTriggerRowcounts = append(b.externalTriggerRowcounts, ext)
+				}
+			}
+			b.nSamp = n
+			select {
+			case feed <- b:
+			case <-stop:
+				return
+			}
+			sent += n
+			nblocks++
+			time.Sleep(time.Duration(n) * period)
+		}
+	}()
+	return nil
+}
+
+// stopScriptedHardware ends the hardware task of a scripted run that has ended (client 0 and the
+// body only).
+func (w *c17World) stopScriptedHardware() {
+	if w.feedStop != nil {
+		close(w.feedStop)
+		w.feedStop = nil
+	}
+}
+
+// startSource configures and starts the run's source through the requests a client has for it.
+func (w *c17World) startSource() error {
+	var ok bool
+	name := w.srcName
+	switch w.kind {
+	case 1:
+		cfg := w.triCfg
+		if err := w.sc.ConfigureTriangleSource(&cfg, &ok); err != nil {
+			return err
+		}
+		return w.sc.Start(&name, &ok)
+	case 2:
+		cfg := w.simCfg
+		cfg.Amplitudes = append([]float64(nil), w.simCfg.Amplitudes...)
+		if err := w.sc.ConfigureSimPulseSource(&cfg, &ok); err != nil {
+			return err
+		}
+		return w.sc.Start(&name, &ok)
+	}
+	return w.startScripted()
+}
+
+// c17Client is one client connection: its requests are sequential. What it believes about the
+// server comes from the replies to its own requests only.
+type c17Client struct {
+	w       *c17World
+	id      int
+	nops    int
+	running bool // a source runs, as far as this client can know
+	writing bool
+	paused  bool
+	// sinceFail counts the requests this client has sent since it made the hardware fail (-1: it has
+	// not, or the run after that failure has begun); failWas describes the writing state at that moment.
+	sinceFail int
+	failWas   string
+	failSoon  bool // the next thing client 0 does is to make the hardware fail
+	stats     map[string]int
+	entries   []c17LogEntry // runs with several clients: the log, formatted by the body at the end
+	t0        time.Time
+	ok        bool
+}
+
+func (c *c17Client) hit(name string) { c.stats[name]++ }
+
+// c17LogEntry is one line of a client's log, kept unformatted while the run lasts: with several
+// clients nothing is formatted before all of them have finished (fmt's buffer pool is a
+// synchronisation object that, under the race detector, keeps or drops what is put into it at
+// random: a client formatting a line while another client is inside a request would order the two
+// RPC threads in some processes and not in others, and races would not replay).
+type c17LogEntry struct {
+	at        time.Duration
+	id        int
+	pre, what string
+	err       error
+	bare      bool // no reply to show
+}
+
+func (e c17LogEntry) String() string {
+	s := fmt.Sprintf("c%d +%.6fs %s%s", e.id, e.at.Seconds(), e.pre, e.what)
+	if e.bare {
+		return s
+	}
+	return s + fmt.Sprintf(" -> %q", c17ErrText(e.err))
+}
+
+func (c *c17Client) log(pre, what string, err error, bare bool) {
+	e := c17LogEntry{at: time.Since(c.t0), id: c.id, pre: pre, what: what, err: err, bare: bare}
+	if c.w.nclients == 1 {
+		c.w.env.Op("%s", e.String())
+		return
+	}
+	c.entries = append(c.entries, e)
+}
+
+// learn updates the client's beliefs from a reply.
+func (c *c17Client) learn(err error) {
+	if err == nil {
+		return
+	}
+	switch {
+	case strings.Contains(err.Error(), "no source is active"):
+		c.running, c.writing, c.paused = false, false, false
+	case strings.Contains(err.Error(), "already have active source"):
+		c.running = true // (another client has started one)
+	}
+}
+
+func (c *c17Client) projectors(ch int) error {
+	nbases, nsamp := 2, c.w.nsamp
+	pd := make([]float64, nbases*nsamp)
+	bd := make([]float64, nbases*nsamp)
+	for i := range pd {
+		pd[i] = float64((i*7+ch)%13) * 0.125
+		bd[i] = float64((i*3+ch)%11) - 5
+	}
+	pb, _ := mat.NewDense(nbases, nsamp, pd).MarshalBinary()
+	bb, _ := mat.NewDense(nsamp, nbases, bd).MarshalBinary()
+	return c.w.sc.ConfigureProjectorsBasis(&ProjectorsBasisObject{ChannelIndex: ch, ProjectorsBase64: base64.StdEncoding.EncodeToString(pb),
+		BasisBase64: base64.StdEncoding.EncodeToString(bb), ModelDescription: "verif"}, &c.ok)
+}
+
+// c17SideNames: the requests that are served on the RPC thread, not by the data-handling loop.
+var c17SideNames = []string{"ReadComment", "SendAllStatus", "ConfigurePulseLengths", "ConfigureMixFraction", "ConfigureSource", "MapServer.Load", "MapServer.Unload", "WriteComment(empty)", "StoreRawDataBlock(0)", "SetExperimentStateLabel(empty)", "Multiply", "SetExperimentStateLabel(no wait)"}
+
+// side sends one request of the RPC-thread menu. ReadComment and SendAllStatus, the two that real
+// clients send all the time, have three times the weight of the others.
+func (c *c17Client) side() (what string, err error) {
+	w, sc := c.w, c.w.sc
+	k := simrt.Draw(len(c17SideNames) + 4)
+	switch {
+	case k >= len(c17SideNames)+2:
+		k = 1
+	case k >= len(c17SideNames):
+		k = 0
+	}
+	what = c17SideNames[k]
+	switch k {
+	case 0:
+		var zero int
+		var text string
+		err = sc.ReadComment(&zero, &text)
+	case 1:
+		var d string
+		err = sc.SendAllStatus(&d, &c.ok)
+	case 2:
+		// the same lengths (answered from the server's status record), or another pretrigger length
+		// (refused on the RPC thread while files are written, otherwise handed to the loop)
+		npre := w.npre
+		if simrt.Draw(2) == 0 {
+			npre = 3 + simrt.Draw(w.nsamp-4)
+		}
+		err = sc.ConfigurePulseLengths(SizeObject{Nsamp: w.nsamp, Npre: npre}, &c.ok)
+	case 3:
+		err = sc.ConfigureMixFraction(&MixFractionObject{ChannelIndices: []int{0}, MixFractions: []float64{0.5}}, &c.ok)
+	case 4:
+		// the configuration the source already has: refused while that source runs
+		if w.kind == 2 || (w.kind == 0 && simrt.Draw(2) == 0) {
+			cfg := w.simCfg
+			cfg.Amplitudes = append([]float64(nil), w.simCfg.Amplitudes...)
+			err = sc.ConfigureSimPulseSource(&cfg, &c.ok)
+		} else {
+			cfg := w.triCfg
+			err = sc.ConfigureTriangleSource(&cfg, &c.ok)
+		}
+	case 5:
+		p := w.mapPath
+		err = sc.mapServer.Load(&p, &c.ok)
+	case 6:
+		zero := 0
+		err = sc.mapServer.Unload(&zero, &c.ok)
+	case 7:
+		empty := ""
+		err = sc.WriteComment(&empty, &c.ok)
+	case 8:
+		var fn string
+		err = sc.StoreRawDataBlock(0, &fn)
+	case 9:
+		err = sc.SetExperimentStateLabel(&StateLabelConfig{Label: "", WaitForError: true}, &c.ok)
+	case 10:
+		var prod int
+		err = sc.Multiply(&FactorArgs{A: 6, B: 7}, &prod)
+	case 11:
+		// WaitForError false, the default of the request: the reply comes at once and dastard hands the
+		// label to the loop from a goroutine of its own, next to this client's following requests. (That
+		// goroutine panics by design when the request is refused, so the client sends it only while, as
+		// far as it knows, files are being written.)
+		if !(c.running && c.writing) {
+			what = c17SideNames[9]
+			err = sc.SetExperimentStateLabel(&StateLabelConfig{Label: "", WaitForError: true}, &c.ok)
+			break
+		}
+		lbl := []string{"stateA", "stateB", "stateC"}[simrt.Draw(3)]
+		err = sc.SetExperimentStateLabel(&StateLabelConfig{Label: lbl}, &c.ok)
+	}
+	c.hit("rpc-thread-request:" + what)
+	if !c.running {
+		c.hit("rpc-thread-request-while-no-source-runs:" + what)
+	}
+	return what, err
+}
+
+// restart: Stop (if the client believes that a source runs), sometimes an ErroringSource episode,
+// then Start. Requests of the RPC-thread menu are sent between the steps.
+func (c *c17Client) restart() (what string, err error) {
+	w, sc := c.w, c.w.sc
+	var d string
+	between := func(where string) {
+		for n := simrt.Draw(3); n > 0; n-- {
+			time.Sleep([]time.Duration{0, 200 * time.Microsecond, 3 * time.Millisecond, 25 * time.Millisecond}[simrt.Draw(4)])
+			s, e := c.side()
+			c.hit("rpc-thread-request-" + where + ":" + s)
+			time.Sleep(time.Millisecond)
+			c.log("  ("+where+") ", s, e, false)
+			c.learn(e)
+		}
+	}
+	if c.running || simrt.Draw(4) == 0 {
+		errStop := sc.Stop(&d, &c.ok)
+		if w.kind == 0 {
+			w.stopScriptedHardware()
+		}
+		if c.sinceFail >= 0 {
+			c.hit("stop-request-after-self-end")
+		}
+		c.running, c.writing, c.paused = false, false, false
+		time.Sleep(time.Duration(1+simrt.Draw(30)) * time.Millisecond)
+		c.log("", "Stop", errStop, false)
+		between("after-stop")
+	}
+	if simrt.Draw(5) == 0 {
+		// the repository's source that fails with its first block: its run ends by itself at once
+		name := "ERRORINGSOURCE"
+		errE := sc.Start(&name, &c.ok)
+		if errE == nil {
+			c.hit("erroring-source-started")
+			// (No WriteControl START here: it would have to arrive before the loop has seen the error block,
+			// and then writeControlStart indexes the row/column table that an ErroringSource never makes -
+			// a panic, C11's topic. See notes/C17-selfend.md.)
+		}
+		time.Sleep(time.Duration(simrt.Draw(20)) * time.Millisecond)
+		c.log("", "Start ERRORINGSOURCE", errE, false)
+		between("after-erroring-source")
+		errStop := sc.Stop(&d, &c.ok)
+		time.Sleep(time.Duration(1+simrt.Draw(10)) * time.Millisecond)
+		c.log("", "Stop", errStop, false)
+	}
+	err = w.startSource()
+	what = "Start"
+	if err == nil {
+		c.running = true
+		c.hit("restart")
+		if c.sinceFail >= 0 {
+			c.hit("restart-after-self-end")
+		}
+		c.sinceFail = -1
+		time.Sleep([]time.Duration{0, 500 * time.Microsecond, 5 * time.Millisecond}[simrt.Draw(3)])
+		between("after-start")
+	}
+	return what, err
+}
+
+func c17ErrText(err error) string {
+	if err == nil {
+		return ""
+	}
+	return strings.SplitN(err.Error(), "\n", 2)[0]
+}
+
+// failHardware: client 0 in its other role, the experimenter at the cryostat: the hardware fails
+// now (at the hardware task's next block). Then the client goes on sending requests; it has no
+// way to know that the run has ended until a reply says so.
+func (c *c17Client) failHardware() string {
+	mode := 1 + simrt.Draw(2)
+	c.failWas = "nothing-written"
+	if c.writing {
+		c.failWas = "files-written"
+		if c.paused {
+			c.failWas = "writing-paused"
+		}
+	}
+	c.w.failNow.Store(int32(mode))
+	c.sinceFail = 0
+	c.hit("self-end-asked:" + c.failWas)
+	return "(hardware fails: " + []string{"", "error block", "data channel closed"}[mode] + "; " + c.failWas + ")"
+}
+
+func (c *c17Client) run() {
+	w, sc := c.w, c.w.sc
+	nchan, nsamp := w.nchan, w.nsamp
+	all := w.all
+	// Nothing is formatted, logged or counted through the runtime between a request and the pause that
+	// follows it: fmt's buffer pool and the runtime's probe mutex are synchronisation objects, and a
+	// client that used them right after a request would order the accesses it made inside the RPC
+	// method before the next thing a dastard goroutine prints - hiding races between the RPC thread and
+	// the data path from the detector. Requests are described before they are sent, results are logged
+	// after the pause.
+	// (the simulated time of a session is bounded: with the scripted source every block costs scheduler steps)
+	deadline := c.t0.Add(15 * time.Second)
+	for i := 0; i < c.nops && time.Now().Before(deadline); i++ {
+		var err error
+		what := ""
+		if c.id == 0 && w.env.Faulted() && simrt.Chance(1, 3) {
+			cls := []string{"writeLoop", "coreLoop"}[simrt.Draw(2)]
+			simrt.Stall(cls, 20+simrt.Draw(200))
+		}
+		op := simrt.Draw(24)
+		forcePause := false
+		switch {
+		case c.sinceFail >= 0 && c.sinceFail < 3 && simrt.Draw(4) > 0:
+			// the first requests after the failure come from the RPC-thread menu most of the time
+			op = 14
+		case c.id > 0 && simrt.Draw(2) == 0:
+			// the other connections are monitoring clients more than controlling ones
+			op = 14
+		case !c.running && simrt.Draw(2) == 0:
+			op = 13
+		case c.id == 0 && w.kind == 0 && c.running && c.sinceFail < 0 && c.writing && !c.paused && !c.failSoon && simrt.Draw(5) == 0:
+			// (so that the hardware also fails while writing is paused)
+			op, forcePause = 3, true
+		case c.id == 0 && w.kind == 0 && c.running && c.sinceFail < 0 && c.writing && (c.failSoon || simrt.Draw(4) == 0):
+			// the scripted hardware fails while files are written, or right after writing was paused
+			op = 18
+		case w.kind == 0 && c.running && !c.writing && simrt.Draw(5) == 0:
+			op = 3
+		}
+		c.failSoon = false
+		switch op {
+		case 0:
+			ts := TriggerState{AutoTrigger: simrt.Draw(2) == 0, AutoDelay: time.Duration(1+simrt.Draw(10)) * time.Millisecond,
+				EdgeTrigger: simrt.Draw(2) == 0, EdgeRising: true, EdgeLevel: int32(200 + 300*simrt.Draw(3)),
+				LevelTrigger: simrt.Draw(3) == 0, LevelRising: true, LevelLevel: RawType(2000)}
+			what = "ConfigureTriggers"
+			err = sc.ConfigureTriggers(&FullTriggerState{ChannelIndices: append([]int(nil), all[:1+simrt.Draw(nchan)]...), TriggerState: ts}, &c.ok)
+		case 1:
+			if !c.writing {
+				what = "ConfigurePulseLengths"
+				err = sc.ConfigurePulseLengths(SizeObject{Nsamp: nsamp, Npre: 3 + simrt.Draw(nsamp-4)}, &c.ok)
+			}
+		case 2:
+			if !c.writing {
+				what = "ConfigureProjectorsBasis"
+				err = c.projectors(simrt.Draw(nchan))
+			}
+		case 3, 4:
+			if !c.writing {
+				what = "WriteControl START"
+				err = sc.WriteControl(&WriteControlConfig{Request: "START", Path: w.basePath, WriteLJH22: simrt.Draw(3) > 0, WriteOFF: simrt.Draw(2) == 0, WriteLJH3: simrt.Draw(2) == 0}, &c.ok)
+				c.writing = err == nil
+				c.paused = false
+			} else {
+				req := []string{"PAUSE", "UNPAUSE", "UNPAUSE label1", "STOP"}[simrt.Draw(4)]
+				if forcePause {
+					req = "PAUSE"
+				}
+				what = "WriteControl " + req
+				err = sc.WriteControl(&WriteControlConfig{Request: req}, &c.ok)
+				if err == nil {
+					switch req {
+					case "STOP":
+						c.writing, c.paused = false, false
+					case "PAUSE":
+						c.paused = true
+						c.failSoon = forcePause || simrt.Draw(2) == 0
+					default:
+						c.paused = false
+					}
+				}
+			}
+		case 5:
+			lbl := "state" + strconv.Itoa(simrt.Draw(3))
+			what = "SetExperimentStateLabel"
+			err = sc.SetExperimentStateLabel(&StateLabelConfig{Label: lbl, WaitForError: true}, &c.ok)
+		case 6:
+			s := "comment " + strconv.Itoa(i)
+			what = "WriteComment"
+			err = sc.WriteComment(&s, &c.ok)
+		case 7:
+			a, b := simrt.Draw(nchan), simrt.Draw(nchan)
+			what = "AddGroupTriggerCoupling"
+			err = sc.AddGroupTriggerCoupling(GroupTriggerState{Connections: map[int][]int{a: {b}}}, &c.ok)
+		case 8:
+			a, b := simrt.Draw(nchan), simrt.Draw(nchan)
+			what = "DeleteGroupTriggerCoupling"
+			err = sc.DeleteGroupTriggerCoupling(&GroupTriggerState{Connections: map[int][]int{a: {b}}}, &c.ok)
+		case 9:
+			var d bool
+			what = "StopTriggerCoupling"
+			err = sc.StopTriggerCoupling(&d, &c.ok)
+		case 10, 11:
+			var fn string
+			n := (1 + simrt.Draw(6)) * nsamp
+			what = "StoreRawDataBlock(" + strconv.Itoa(n) + ")"
+			err = sc.StoreRawDataBlock(n, &fn)
+			if err == nil {
+				c.hit("raw-block-requested")
+			}
+		case 12:
+			// edge-multi triggering on some channels (fixed-length record modes): its search state is
+			// rewritten by the per-channel goroutines on every block
+			ts := TriggerState{EdgeMulti: true, EdgeRising: true, AutoDelay: 250 * time.Millisecond}
+			ts.EdgeMultiLevel = int32(200 + 300*simrt.Draw(3))
+			ts.EdgeMultiVerifyNMonotone = 1 + simrt.Draw(3)
+			ts.EdgeMultiMakeContaminatedRecords = simrt.Draw(2) == 0
+			ts.EdgeMultiDisableZeroThreshold = simrt.Draw(2) == 0
+			what = "ConfigureTriggers(edge-multi)"
+			err = sc.ConfigureTriggers(&FullTriggerState{ChannelIndices: append([]int(nil), all[:1+simrt.Draw(nchan)]...), TriggerState: ts}, &c.ok)
+			if err == nil {
+				c.hit("edge-multi-enabled")
+			}
+		case 13:
+			if c.id > 0 && w.kind == 0 {
+				// (the scripted source is started by the harness: client 0 alone stops and starts it)
+				what, err = c.side()
+			} else if !c.running || simrt.Draw(3) == 0 {
+				what, err = c.restart()
+			}
+		case 14, 15, 16, 17:
+			what, err = c.side()
+			if c.sinceFail >= 0 {
+				c.hit("rpc-thread-request-after-self-end:" + what)
+				if c.sinceFail == 0 {
+					c.hit("first-request-after-self-end(" + c.failWas + "):" + what)
+				}
+			}
+		case 18, 19:
+			// (weight 2 of 24 while nothing is written, more while files are written or writing is paused)
+			if c.id == 0 && w.kind == 0 && c.running && c.sinceFail < 0 && (c.writing || simrt.Draw(3) == 0) {
+				what = c.failHardware()
+				c.log("", what, nil, true)
+				what = ""
+				// the next request follows closely: before, while or after the loop winds up
+				time.Sleep([]time.Duration{0, 300 * time.Microsecond, 2 * time.Millisecond, 8 * time.Millisecond, 25 * time.Millisecond, 60 * time.Millisecond, 150 * time.Millisecond}[simrt.Draw(7)])
+				continue
+			}
+			fallthrough
+		default:
+			time.Sleep(time.Duration(1+simrt.Draw(400)) * time.Millisecond)
+			what = "sleep"
+		}
+		// let data flow between requests (and let flush / heartbeat / save timers fire sometimes)
+		d := []time.Duration{2 * time.Millisecond, 20 * time.Millisecond, 300 * time.Millisecond, 2500 * time.Millisecond}[simrt.Draw(4)]
+		if c.sinceFail >= 0 && c.sinceFail < 3 {
+			d = []time.Duration{200 * time.Microsecond, 2 * time.Millisecond, 10 * time.Millisecond, 40 * time.Millisecond}[simrt.Draw(4)]
+		}
+		time.Sleep(d)
+		if what != "" && what != "sleep" {
+			c.log("", what, err, false)
+			if c.sinceFail >= 0 {
+				c.sinceFail++ // (a request has been sent since the failure)
+			}
+		}
+		c.learn(err)
+	}
+}
+
 func c17Body(env *simrt.Env) {
 	c17Sinks()
 	resetViper(env.Dir)
@@ -67,11 +680,15 @@ func c17Body(env *simrt.Env) {
 	abortUpdater := make(chan struct{})
 	go RunClientUpdater(0, abortUpdater)
 
-	nchan := 2 + simrt.Draw(3)
-	nsamp := []int{16, 32, 64}[simrt.Draw(3)]
-	npre := 4 + simrt.Draw(nsamp/2)
-	rate := 10000.0
+	w := &c17World{env: env}
+	w.nchan = 2 + simrt.Draw(3)
+	w.nsamp = []int{16, 32, 64}[simrt.Draw(3)]
+	w.npre = 4 + simrt.Draw(w.nsamp/2)
+	w.rate = 10000.0
+	nchan, nsamp, npre, rate := w.nchan, w.nsamp, w.npre, w.rate
 	sc := newSourceControl(npre, nsamp)
+	w.sc = sc
+	w.basePath = filepath.Join(env.Dir, "data")
 
 	// the heartbeat goroutine of RunRPCServer (an inline closure there; body copied)
 	go func() {
@@ -94,255 +711,118 @@ func c17Body(env *simrt.Env) {
 		}
 	}()
 
-	kind := simrt.Draw(3)
-	var ok bool
-	var ss *ScriptedSource
-	feedStop := make(chan struct{})
-	srcName := ""
-	startSource := func() error {
-		switch kind {
-		case 1:
-			srcName = "TRIANGLESOURCE"
-			if err := sc.ConfigureTriangleSource(&TriangleSourceConfig{Nchan: nchan, SampleRate: rate, Min: 100, Max: RawType(400 + 100*simrt.Draw(3))}, &ok); err != nil {
-				return err
-			}
-			return sc.Start(&srcName, &ok)
-		case 2:
-			srcName = "SIMPULSESOURCE"
-			if err := sc.ConfigureSimPulseSource(&SimPulseSourceConfig{Nchan: nchan, SampleRate: rate, Pedestal: 1000, Amplitudes: []float64{5000, 8000}, Nsamp: 3 * nsamp}, &ok); err != nil {
-				return err
-			}
-			return sc.Start(&srcName, &ok)
-		}
-		srcName = "scripted"
-		ss = NewScriptedSource(nchan, rate)
-		ss.heartbeats = sc.heartbeats
-		sc.ActiveSource = DataSource(ss)
-		sc.status.SourceName = "Scripted"
-		sc.status.Running = true
-		if err := Start(sc.ActiveSource, sc.queuedRequests, sc.status.Npresamp, sc.status.Nsamples); err != nil {
-			sc.status.Running = false
-			sc.isSourceActive = false
-			return err
-		}
-		sc.isSourceActive = true
-		sc.status.SamplePeriod = sc.ActiveSource.SamplePeriod()
-		sc.status.Nchannels = sc.ActiveSource.Nchan()
-		sc.status.ChanGroups = sc.ActiveSource.ChanGroups()
-		sc.broadcastStatus()
-		sc.broadcastTriggerState()
-		sc.broadcastGroupTriggerState()
-		sc.broadcastChannelNames()
-		// hardware task: paced blocks with pulses, external triggers and drops
-		feed := ss.feed
-		stop := feedStop
-		period := time.Duration(roundint(1e9 / rate))
-		go func() {
-			sent := 0
-			t0 := time.Now()
-			ext := int64(10)
-			for {
-				n := nsamp/2 + simrt.Draw(3*nsamp)
-				b := new(dataBlock)
-				b.segments = make([]DataSegment, nchan)
-				for c := 0; c < nchan; c++ {
-					data := make([]RawType, n)
-					for i := range data {
-						v := 1000 + (sent+i)%7
-						if ph := (sent + i + 13*c) % (3 * nsamp); ph < 6 {
-							v += 3000 - 400*ph
-						}
-						data[i] = RawType(v)
-					}
-					b.segments[c] = DataSegment{rawData: data, framesPerSample: 1, framePeriod: period,
-						firstFrameIndex: FrameIndex(sent), firstTime: t0.Add(time.Duration(sent) * period)}
-					if simrt.Draw(6) == 0 {
-						b.segments[c].droppedFrames = 1 + simrt.Draw(3)
-					}
-				}
-				if simrt.Draw(3) == 0 {
-					for k := 0; k < 1+simrt.Draw(3); k++ {
-						ext += 1 + int64(simrt.Draw(40))
-						b.externalTriggerRowcounts = append(b.externalTriggerRowcounts, ext)
-					}
-				}
-				b.nSamp = n
-				select {
-				case feed <- b:
-				case <-stop:
-					return
-				}
-				sent += n
-				time.Sleep(time.Duration(n) * period)
-			}
-		}()
-		return nil
+	w.kind = []int{0, 0, 1, 2}[simrt.Draw(4)]
+	w.srcName = []string{"scripted", "TRIANGLESOURCE", "SIMPULSESOURCE"}[w.kind]
+	w.triCfg = TriangleSourceConfig{Nchan: nchan, SampleRate: rate, Min: 100, Max: RawType(400 + 100*simrt.Draw(3))}
+	w.simCfg = SimPulseSourceConfig{Nchan: nchan, SampleRate: rate, Pedestal: 1000, Amplitudes: []float64{5000, 8000}, Nsamp: 3 * nsamp}
+	// a TES map with one pixel per channel, for the map server's Load request
+	w.mapPath = filepath.Join(env.Dir, "map.cfg")
+	var mapText strings.Builder
+	mapText.WriteString("spacing: 520\n")
+	for i := 1; i <= nchan; i++ {
+		fmt.Fprintf(&mapText, "%8d %8d %8d c%dr%d\n", i, 290*(i%7), -520*(i/7), i/7, i%7)
 	}
-	if err := startSource(); err != nil {
+	if err := os.WriteFile(w.mapPath, []byte(mapText.String()), 0644); err != nil {
+		simrt.Fail("harness.map", "harness:map-file", "%v", err)
+	}
+	nclients := 1
+	if simrt.Draw(2) == 1 { // (0, what a minimised tape tends to, is the property's single client)
+		nclients = 2 + simrt.Draw(2)
+	}
+	// (a knob for experiments: VERIF_C17_CLIENTS=1 keeps every run to the property's single client)
+	if v := os.Getenv("VERIF_C17_CLIENTS"); v != "" {
+		if n := int(v[0] - '0'); n >= 1 && n < nclients {
+			nclients = n
+		}
+	}
+	if err := w.startSource(); err != nil {
 		simrt.Fail("harness.start", "harness:start", "Start failed: %v", err)
 	}
-	env.Op("race world source=%s nchan=%d nsamp=%d npre=%d", srcName, nchan, nsamp, npre)
+	w.nclients = nclients
+	env.Op("race world source=%s nchan=%d nsamp=%d npre=%d clients=%d", w.srcName, nchan, nsamp, npre, nclients)
 
-	all := make([]int, nchan)
-	for i := range all {
-		all[i] = i
-	}
-	basePath := filepath.Join(env.Dir, "data")
-	writing := false
-	running := true
-	nbases := 2
-	projectors := func(c int) error {
-		pd := make([]float64, nbases*nsamp)
-		bd := make([]float64, nbases*nsamp)
-		for i := range pd {
-			pd[i] = float64((i*7+c)%13) * 0.125
-			bd[i] = float64((i*3+c)%11) - 5
-		}
-		pb, _ := mat.NewDense(nbases, nsamp, pd).MarshalBinary()
-		bb, _ := mat.NewDense(nsamp, nbases, bd).MarshalBinary()
-		return sc.ConfigureProjectorsBasis(&ProjectorsBasisObject{ChannelIndex: c, ProjectorsBase64: base64.StdEncoding.EncodeToString(pb),
-			BasisBase64: base64.StdEncoding.EncodeToString(bb), ModelDescription: "verif"}, &ok)
+	w.all = make([]int, nchan)
+	for i := range w.all {
+		w.all[i] = i
 	}
 	// records must flow: auto + edge triggers from the start
-	sc.ConfigureTriggers(&FullTriggerState{ChannelIndices: all, TriggerState: TriggerState{AutoTrigger: true,
+	var ok bool
+	sc.ConfigureTriggers(&FullTriggerState{ChannelIndices: append([]int(nil), w.all...), TriggerState: TriggerState{AutoTrigger: true,
 		AutoDelay: time.Duration(float64(2*nsamp) / rate * float64(time.Second)), EdgeTrigger: true, EdgeRising: true, EdgeLevel: 500}}, &ok)
 
-	nops := 6 + simrt.Draw(14)
-	rawBlocks := 0
-	for i := 0; i < nops; i++ {
-		var err error
-		what := ""
-		switch op := simrt.Draw(16); op {
-		case 0:
-			ts := TriggerState{AutoTrigger: simrt.Draw(2) == 0, AutoDelay: time.Duration(1+simrt.Draw(10)) * time.Millisecond,
-				EdgeTrigger: simrt.Draw(2) == 0, EdgeRising: true, EdgeLevel: int32(200 + 300*simrt.Draw(3)),
-				LevelTrigger: simrt.Draw(3) == 0, LevelRising: true, LevelLevel: RawType(2000)}
-			err = sc.ConfigureTriggers(&FullTriggerState{ChannelIndices: all[:1+simrt.Draw(nchan)], TriggerState: ts}, &ok)
-			what = "ConfigureTriggers"
-		case 1:
-			if !writing {
-				err = sc.ConfigurePulseLengths(SizeObject{Nsamp: nsamp, Npre: 3 + simrt.Draw(nsamp-4)}, &ok)
-				what = "ConfigurePulseLengths"
-			}
-		case 2:
-			if !writing {
-				err = projectors(simrt.Draw(nchan))
-				what = "ConfigureProjectorsBasis"
-			}
-		case 3, 4:
-			if !writing {
-				err = sc.WriteControl(&WriteControlConfig{Request: "START", Path: basePath, WriteLJH22: simrt.Draw(3) > 0, WriteOFF: simrt.Draw(2) == 0, WriteLJH3: simrt.Draw(2) == 0}, &ok)
-				writing = err == nil
-				what = "WriteControl START"
-			} else {
-				req := []string{"PAUSE", "UNPAUSE", "UNPAUSE label1", "STOP"}[simrt.Draw(4)]
-				err = sc.WriteControl(&WriteControlConfig{Request: req}, &ok)
-				if req == "STOP" && err == nil {
-					writing = false
-				}
-				what = "WriteControl " + req
-			}
-		case 5:
-			err = sc.SetExperimentStateLabel(&StateLabelConfig{Label: fmt.Sprintf("state%d", simrt.Draw(3)), WaitForError: true}, &ok)
-			what = "SetExperimentStateLabel"
-		case 6:
-			s := fmt.Sprintf("comment %d", i)
-			err = sc.WriteComment(&s, &ok)
-			what = "WriteComment"
-		case 7:
-			a, b := simrt.Draw(nchan), simrt.Draw(nchan)
-			err = sc.AddGroupTriggerCoupling(GroupTriggerState{Connections: map[int][]int{a: {b}}}, &ok)
-			what = "AddGroupTriggerCoupling"
-		case 8:
-			a, b := simrt.Draw(nchan), simrt.Draw(nchan)
-			err = sc.DeleteGroupTriggerCoupling(&GroupTriggerState{Connections: map[int][]int{a: {b}}}, &ok)
-			what = "DeleteGroupTriggerCoupling"
-		case 9:
-			var d bool
-			err = sc.StopTriggerCoupling(&d, &ok)
-			what = "StopTriggerCoupling"
-		case 10, 11:
-			var fn string
-			n := (1 + simrt.Draw(6)) * nsamp
-			err = sc.StoreRawDataBlock(n, &fn)
-			if err == nil {
-				rawBlocks++
-				simrt.Hit("raw-block-requested")
-			}
-			what = fmt.Sprintf("StoreRawDataBlock(%d)", n)
-		case 12:
-			if simrt.Draw(2) == 0 {
-				var d string
-				err = sc.SendAllStatus(&d, &ok)
-				what = "SendAllStatus"
-			} else {
-				// edge-multi triggering on some channels (fixed-length record modes): its search state is
-				// rewritten by the per-channel goroutines on every block
-				ts := TriggerState{EdgeMulti: true, EdgeRising: true, AutoDelay: 250 * time.Millisecond}
-				ts.EdgeMultiLevel = int32(200 + 300*simrt.Draw(3))
-				ts.EdgeMultiVerifyNMonotone = 1 + simrt.Draw(3)
-				ts.EdgeMultiMakeContaminatedRecords = simrt.Draw(2) == 0
-				ts.EdgeMultiDisableZeroThreshold = simrt.Draw(2) == 0
-				err = sc.ConfigureTriggers(&FullTriggerState{ChannelIndices: all[:1+simrt.Draw(nchan)], TriggerState: ts}, &ok)
-				what = "ConfigureTriggers(edge-multi)"
-				if err == nil {
-					simrt.Hit("edge-multi-enabled")
-				}
-			}
-		case 13:
-			if running && simrt.Draw(3) == 0 {
-				var d string
-				err = sc.Stop(&d, &ok)
-				if kind == 0 {
-					close(feedStop)
-					feedStop = make(chan struct{})
-				}
-				running, writing = false, false
-				what = "Stop"
-				env.Op("%s -> %v", what, err)
-				time.Sleep(time.Duration(1+simrt.Draw(30)) * time.Millisecond)
-				err = startSource()
-				running = err == nil
-				what = "Start"
-				if running {
-					simrt.Hit("restart")
-				}
-			}
-		default:
-			time.Sleep(time.Duration(1+simrt.Draw(400)) * time.Millisecond)
-			what = "sleep"
+	clients := make([]*c17Client, nclients)
+	done := make(chan int, nclients)
+	nops := 0
+	for k := range clients {
+		c := &c17Client{w: w, id: k, running: true, sinceFail: -1, stats: map[string]int{}, t0: time.Now()}
+		c.nops = 6 + simrt.Draw(14)
+		if k > 0 {
+			c.nops = 3 + simrt.Draw(10)
 		}
-		if what != "" && what != "sleep" {
-			es := ""
-			if err != nil {
-				es = strings.SplitN(err.Error(), "\n", 2)[0]
-			}
-			env.Op("%s -> %q", what, es)
-		}
-		// let data flow between requests (and let flush / heartbeat / save timers fire sometimes)
-		d := []time.Duration{2 * time.Millisecond, 20 * time.Millisecond, 300 * time.Millisecond, 2500 * time.Millisecond}[simrt.Draw(4)]
-		if env.Faulted() && simrt.Chance(1, 3) {
-			cls := []string{"writeLoop", "coreLoop"}[simrt.Draw(2)]
-			simrt.Stall(cls, 20+simrt.Draw(200))
-			simrt.Fault("stall:" + cls)
-		}
-		time.Sleep(d)
+		nops += c.nops
+		clients[k] = c
 	}
-	if writing {
-		sc.WriteControl(&WriteControlConfig{Request: "STOP"}, &ok)
+	for k := 1; k < nclients; k++ {
+		c := clients[k]
+		go func() {
+			// a connection opens a little later than the first one
+			time.Sleep(time.Duration(simrt.Draw(1500)) * time.Millisecond)
+			c.run()
+			done <- c.id
+		}()
 	}
-	if running {
-		var d string
-		sc.Stop(&d, &ok)
-		if kind == 0 {
-			close(feedStop)
-		}
+	clients[0].run()
+	for k := 1; k < nclients; k++ {
+		<-done
+	}
+	// the end of the session: whatever the clients believe, stop writing and stop the source
+	sc.WriteControl(&WriteControlConfig{Request: "STOP"}, &ok)
+	var d string
+	sc.Stop(&d, &ok)
+	if w.kind == 0 {
+		w.stopScriptedHardware()
 	}
 	time.Sleep(3 * time.Second) // the updater's change timer fires: configuration saved
 	close(abortUpdater)
 	time.Sleep(10 * time.Millisecond)
+
+	// the clients' logs (runs with several clients) in the order of time, and the probes of all clients
+	var entries []c17LogEntry
+	stats := map[string]int{}
+	for _, c := range clients {
+		entries = append(entries, c.entries...)
+		for name, n := range c.stats {
+			stats[name] += n
+		}
+	}
+	sort.SliceStable(entries, func(i, j int) bool { return entries[i].at < entries[j].at })
+	for _, e := range entries {
+		env.Op("%s", e.String())
+	}
+	names := make([]string, 0, len(stats))
+	for name := range stats {
+		names = append(names, name)
+	}
+	sort.Strings(names)
+	for _, name := range names {
+		for n := stats[name]; n > 0; n-- {
+			simrt.Hit(name)
+		}
+	}
+	simrt.Hit(fmt.Sprintf("clients:%d", nclients))
+	c17Hits("self-end:hardware-failed-on-its-own", w.nAutoEnds.Load())
+	c17Hits("self-end:hardware-failed-when-asked", w.nAskedEnds.Load())
+	c17Hits("self-end:error-block", w.nErrBlocks.Load())
+	c17Hits("self-end:data-channel-closed", w.nClosedChan.Load())
 	if nMsgs > 0 {
 		simrt.Hit("status-published")
 	}
-	env.Sample(map[string]interface{}{"source": srcName, "channels": nchan, "requests": nops, "raw_blocks": rawBlocks, "status_messages": nMsgs})
+	env.Sample(map[string]interface{}{"source": w.srcName, "channels": nchan, "clients": nclients, "requests": nops, "raw_blocks": stats["raw-block-requested"],
+		"restarts": stats["restart"], "self_ends": w.nAutoEnds.Load() + w.nAskedEnds.Load(), "status_messages": nMsgs})
+}
+
+func c17Hits(name string, n int32) {
+	for ; n > 0; n-- {
+		simrt.Hit(name)
+	}
 }
